@@ -443,6 +443,20 @@ def appendDt (x : Sys) (other : Arg) (cfg : DtArg) : Except Err Sys :=
       | Option.none => .error .notImplemented
   | _ => .error .notImplemented
 
+/-- `P.lft(K[, nu, ny])` (`StateSpace.lft`, the only class that has the method; a `LinearICSystem`
+is a `StateSpace`): `other = _convert_to_statespace(other)` (TF converted, constants become a static
+`StateSpace` with timebase `None`, FRD / non-linear systems raise `TypeError`), then
+`dt = common_timebase(self.dt, other.dt)` and `StateSpace(Ares, Bres, Cres, Dres, dt)`.  Every other
+class has no attribute `lft` (`AttributeError`). -/
+def lftDt (x : Sys) (other : Arg) (cfg : DtArg) : Except Err Sys :=
+  match x.cls with
+  | .ss => do
+      let o ← toSS other cfg
+      let d ← common x.dt o
+      let y ← givenDt d cfg
+      .ok ⟨.ss, y⟩
+  | _ => .error .notImplemented
+
 /-! ### unary operations, conversions, transforms -/
 
 inductive UnOp where
@@ -590,6 +604,12 @@ def appendArg (a b : Arg) (cfg : DtArg) : Except Err Sys :=
   match a with
   | .sys x => appendDt x b cfg
   | _ => .error .badArg
+
+/-- `a.lft(b)`: a method of `StateSpace` only (a constant has no attribute `lft`). -/
+def lftArg (a b : Arg) (cfg : DtArg) : Except Err Sys :=
+  match a with
+  | .sys x => lftDt x b cfg
+  | _ => .error .notImplemented
 
 def evalTree (cfg : DtArg) : Tree → Except Err Arg
   | .leaf a => .ok a
